@@ -1,6 +1,6 @@
 import LunaVerif.Core.Proto
-import LunaVerif.Model.Usb2.ControlCyc
-open LunaVerif LunaVerif.Proto LunaVerif.Device LunaVerif.CtrlCyc
+import LunaVerif.Model.Usb2.ControlCycSys
+open LunaVerif LunaVerif.Proto LunaVerif.Device LunaVerif.CtrlCyc LunaVerif.StreamGen
 
 /-!
 Line-protocol driver of the CYCLE-level model of `USBControlEndpoint` + multiplexer + `StandardRequestHandler`
@@ -14,6 +14,14 @@ output line : ack nak stall txValid txFirst txLast txPayload txPidToggle address
               newConfig cehEnable cehDirection cehNumber  dataRequested statusRequested hsAckForwarded
               h.claim h.ack h.stall h.dStart h.dReady h.tStart h.tReady h.tMaxLen h.tData0
               stage hstate startPos txPid expectingAck           (registers: values BEFORE the clock edge)
+              ser.valid ser.first ser.last ser.payload           (the serializer MODEL of Model/Usb2/ControlCycSys.lean,
+                                                                  driven by the model's wires h.tStart … h.tData0; the
+                                                                  harness compares them with the real transmitter's
+                                                                  outputs of the cycle = the inputs tValid … tPayload)
+
+The control-endpoint model runs OPEN loop on the real transmitter's outputs (as before); next to it the serializer model
+runs on the model's wires.  As long as the four `ser.*` columns agree with the real transmitter in every cycle, the open
+loop IS the closed loop `sysStep` (`sysStep c ⟨cs, ser⟩ i = step c cs (withT i so)` with `so` = the `ser.*` columns).
 -/
 
 def parseIn (xs : List Nat) : CycIn :=
@@ -43,8 +51,10 @@ def encodeOut (s : CycState) (o : CycOut) : List Nat :=
    stageCode s.stage, hstateCode s.h.hstate, s.h.startPos, b2n s.h.txPid, b2n s.h.expectingAck]
 
 def main : IO Unit :=
-  runDriver (σ := Cfg × CycState)
-    (fun cfg => ({ epNum := fld cfg 0, maxPacket := fld cfg 1 }, CtrlCyc.init))
+  runDriver (σ := Cfg × SysState)
+    (fun cfg => ({ epNum := fld cfg 0, maxPacket := fld cfg 1 }, sysInit))
     (fun (c, s) row =>
-      let (s', o) := step c s (parseIn row)
-      ((c, s'), encodeOut s o))
+      let i := parseIn row
+      let (cs', o) := step c s.cs i
+      let (ser', so) := serCycle c s i
+      ((c, { cs := cs', ser := ser' }), encodeOut s.cs o ++ [b2n so.valid, b2n so.first, b2n so.last, so.payload]))
